@@ -91,6 +91,9 @@ def _known_signature_replay(ctx, kr):
         ctx.notes.append("known signature '%s' (%s): library %s, model %s" % (
             ks["id"], ks["what"], "reproduces it" if same else "NO LONGER shows it", "reproduces it" if model_same else "does not"))
         ctx.cov.setdefault("known_signatures", []).append({"id": ks["id"], "library_reproduces": same, "model_reproduces": model_same})
+        # reported (never counted) when KNOWN_FINDINGS.json lists it and the replay still shows it
+        if same and any(f.get("id") == ks["id"] for f in fw.known_findings(ctx.id)):
+            ctx.known.append(ks["what"] + " (" + ks["id"] + ")")
 
 def _lookup_run(ctx, pid, mask, profiles, relevant_ops, tags, count_quick, count_thorough, nops_quick, nops_thorough):
     import lookupgen
